@@ -419,6 +419,41 @@ fn hidden(rng: &mut Rng, r: usize, c: usize, d: &[isize], cap: isize) -> M {
     dm
 }
 
+/// all numbers 2^a 3^b 5^c 7^d <= bound
+fn smooth_numbers(bound: isize) -> Vec<isize> {
+    let mut v = vec![];
+    for x in 1..=bound {
+        let mut y = x;
+        for p in [2, 3, 5, 7] {
+            while y % p == 0 {
+                y /= p;
+            }
+        }
+        if y == 1 {
+            v.push(x);
+        }
+    }
+    v
+}
+
+/// number of prime factors counted with multiplicity (of a 7-smooth number)
+fn omega(mut x: isize) -> usize {
+    let mut k = 0;
+    for p in [2, 3, 5, 7] {
+        while x % p == 0 {
+            x /= p;
+            k += 1;
+        }
+    }
+    k
+}
+
+/// like `ainv_mat`, but the words are spelled without cancelling noise (long words stay cheap)
+fn ainv_mat_plain(ctx: &mut Ctx, rng: &mut Rng, kind: &str, n: usize, mat: &M) {
+    let rels: Vec<FreeWord> = mat.iter().map(|row| word_of_row(rng, row, 0)).collect();
+    ainv(ctx, "ainv", kind, n, &rels, is_nontrivial(mat));
+}
+
 fn structured(rng: &mut Rng, which: usize) -> (&'static str, usize, M) {
     let pool: [isize; 12] = [0, 1, 2, 3, 4, 6, 9, 10, 12, 15, -2, -6];
     match which % 8 {
@@ -580,6 +615,12 @@ fn main() {
     ainv(&mut ctx, "ainv", "regress", 6,
         &plain(&[&[7, 7, 3, -1, 4, 2], &[-2, 5, 8, 3, 2, 1], &[-8, 2, -2, 4, -3, 7], &[-3, -2, -2, -6, 7, -6],
                  &[3, -4, 7, 7, 5, -7], &[9, -9, 4, 3, -6, 0], &[4, -7, -7, -5, -9, 1], &[-4, -2, 6, 9, 5, 8]]), true);
+    // seeded change C14-m7 (fixed schedule instead of the open-ended rows/cols loop): a pivot that has
+    // to shrink three times in successive passes (72 -> .. , 40 -> 20 -> 10 -> 5)
+    ainv(&mut ctx, "ainv", "regress", 3, &plain(&[&[0, 72, 45], &[-40, -60, 0]]), true);
+    ainv(&mut ctx, "ainv", "regress", 5,
+        &plain(&[&[0, 0, 8, -9, 8], &[0, 0, -8, 0, 0], &[-9, 9, 0, 0, 0], &[0, 2, 0, 0, 0], &[0, 5, 6, 0, 0]]), true);
+    ainv(&mut ctx, "ainv", "regress", 3, &plain(&[&[20, 0, 30], &[-72, -16, 0], &[0, 48, 27]]), true);
     // fixed points of the test-suite
     let t = |rows: &[&[isize]]| -> Vec<FreeWord> { rows.iter().map(|r| fw(r)).collect() };
     ainv(&mut ctx, "ainv", "fixed", 3, &t(&[&[1, 2, -1, -2], &[1, 3, -1, -3], &[2, 3, -2, -3]]), true);
@@ -668,6 +709,48 @@ fn main() {
             let (kind, n, m) = structured(&mut rng, k / 2);
             meta(&mut ctx, &mut rng, kind, n, &m);
         }
+    }
+    // (5b) smooth entries: small sparse matrices whose non-zero entries are highly composite
+    //      (2^a 3^b 5^c 7^d <= 200), so that a pivot has to shrink through several gcd steps in
+    //      successive row / column passes (long rows-cols-rows-cols chains at one pivot)
+    let mut rng = ctx.rng(51);
+    let smooth = smooth_numbers(200);
+    let rich: Vec<isize> = smooth.iter().cloned().filter(|&x| omega(x) >= 3).collect();
+    let shapes: [(usize, usize); 10] = [(5, 5), (3, 3), (5, 5), (3, 4), (5, 5), (4, 4), (5, 5), (4, 5), (4, 4), (5, 4)];
+    for k in 0..(if th { 1_000_000 } else { 60_000 }) {
+        let (r, c) = shapes[k % shapes.len()];
+        let pzero = if r * c >= 16 { 60 } else { 40 };
+        let m: M = (0..r)
+            .map(|_| {
+                (0..c)
+                    .map(|_| {
+                        if rng.below(100) < pzero {
+                            0
+                        } else {
+                            let pool = if rng.chance(7, 10) { &rich } else { &smooth };
+                            let x = pool[rng.below(pool.len())];
+                            if rng.chance(1, 2) { x } else { -x }
+                        }
+                    })
+                    .collect()
+            })
+            .collect();
+        ainv_mat_plain(&mut ctx, &mut rng, "smooth-sparse", c, &m);
+    }
+    // (5c) U·D·V with composite pivots (40, 72, 180, ...) and a smooth perturbation
+    let mut rng = ctx.rng(52);
+    let pivots: [isize; 14] = [40, 72, 180, 120, 90, 60, 84, 126, 48, 36, 150, 16, 24, 200];
+    for _ in 0..(if th { 200_000 } else { 10_000 }) {
+        let r = 2 + rng.below(3);
+        let c = 2 + rng.below(3);
+        let d: Vec<isize> = (0..r.min(c)).map(|_| if rng.chance(1, 6) { 0 } else { pivots[rng.below(pivots.len())] }).collect();
+        let mut m = hidden(&mut rng, r, c, &d, 400);
+        for _ in 0..rng.below(3) {
+            let (i, j) = (rng.below(r), rng.below(c));
+            let x = rich[rng.below(rich.len())];
+            m[i][j] += if rng.chance(1, 2) { x } else { -x };
+        }
+        ainv_mat_plain(&mut ctx, &mut rng, "composite-pivots", c, &m);
     }
     // (6) relator_as_vector
     for n in 1..=2usize {
